@@ -32,7 +32,7 @@ func serverFrame(rng *rand.Rand, class int) []byte {
 	case 2: // out of range quantity / coil value
 		fc := []int{1, 2, 3, 4, 5, 15, 16, 23}[rng.Intn(8)]
 		pdu := validRequestPDU(rng, fc)
-		q := []int{0, 126, 2001, 1969, 124, 65535, 0x1234}[rng.Intn(7)]
+		q := []int{0, 126, 2001, 1969, 124, 65535, 0x1234, 0x0100, 0xFE00, 0x00FF, 0x7F00}[rng.Intn(11)]
 		if fc == 23 && rng.Intn(2) == 0 && len(pdu) > 8 {
 			pdu[7], pdu[8] = byte(q>>8), byte(q)
 		} else {
